@@ -24,14 +24,17 @@ Taken from outside:
     the minter makes (`Config {}`, cw2 contract info, `ActiveStageId {}`, `Stage {}`); it is (re)written by `Op.wlEnv`
     from queries the harness makes BEFORE the op.  The sender-dependent answers (`HasMember`, `Member`, the Merkle
     `HasMember {member, proof_hashes}`) ride on the mint op (`SenderView`).  Which query shapes parse for which whitelist kind is
-    `MintLimits.configOk/membership/stageOk` (validated against the real contracts by the C03 check).
+    `MintLimits.configOk/stageOk/WlKind.answers*` (validated against the real contracts by the C03 check).
   - the sg721 collection: only what the minter's sub-messages need — the token table (`Supply.Coll`, inside
     `Supply.Fixed`) and the ownership / trading-time record (`TT.Coll`); holders' and creator's own messages to
     the collection are the interface ops `collTransfer … collOwn`.
   - `Url::parse`, `addr_validate` on user strings, and the collection's own instantiate checks are flags on `CreateMsg`.
 
-Reused as they stand: `Supply.Fixed` (+`takeAt/takeId/shuffle/burnAll/purge`), `MintLimits.gate` (= `is_public_mint`),
-`MintLimits.dynOk`, `MintPay.Bank/applyMsgs/splitMsgs`, `Sg1.*`, `mayPay/mustPay/nonpayable`, `TT.Coll.*`, `TT.plusSeconds`.
+Reused as they stand (stable pieces only; the whitelist gate, prices, fees, payouts and price rules are transcribed HERE,
+independently of the aspect models, so that the refinement theorems compare two separately written descriptions):
+`Supply.Fixed` (+`takeAt/takeId/shuffle/burnAll/purge`), `MintPay.Bank/applyMsgs`, `Sg1.*`, `mayPay/mustPay/nonpayable`,
+`TT.Coll.*`, `TT.boundedOrDefault/tradingUpdateOk`, and from `MintLimits` the query-shape tables and small helpers
+(`Flavor`, `WlKind`, `Fields`, `configOk`, `stageOk`, `WlKind.answers*`, `dynOk`, `upd`, `upd2`, `zero`).
 One minter per factory per case (as in every aspect model).
 -/
 namespace LP.VF
@@ -290,25 +293,6 @@ def dedupAdj : List Nat → List Nat
   | [a] => [a]
   | a :: b :: rest => if a = b then dedupAdj (b :: rest) else a :: dedupAdj (b :: rest)
 
-/-- the records `MintPay.splitMsgs` reads -/
-def payVariant (v : Variant) : MintPay.Variant := ⟨.vending, v.featured⟩
-
-def payFactory (p : Params) : MintPay.Factory :=
-  { mintFeeBps := p.mintFeeBps, airdropPrice := p.airdropMintPrice, airdropFeeBps := p.airdropMintFeeBps, devAddr := 0 }
-
-/-- `MintLimits.State` as far as `is_public_mint` reads it -/
-def limitsOf (p : Params) (wls : Addr → Option WlInfo) (m : Minter) : MintLimits.State :=
-  { kind := m.v.kind, admin := m.admin, limit := m.perAddressLimit, numTokens := m.supply.n,
-    maxPerAddr := p.maxPerAddressLimit, oeNoCap := false,
-    wl := match m.whitelist with
-      | none => none
-      | some a => (wls a).map fun i => (a, i.kind),
-    pub := m.pub, wlc := m.wlc, stg := m.stg, tot := m.tot, owned := m.received }
-
-def viewOf (i : WlInfo) (sv : SenderView) : MintLimits.View :=
-  { active := i.active, memberPlain := sv.memberPlain, leafOk := sv.leafOk, limit := i.limit,
-    memberCount := sv.memberCount, merkleCfg := i.merkleCfg, stageId := i.stageId, stageLimit := i.stageLimit }
-
 /-- the whitelist's `Config {}` as the minter of variant `v` reads it: fails when there is no such contract or the
 answer has another layout -/
 def wlConfig (s : State) (v : Variant) (a : Addr) : Except Err WlInfo :=
@@ -318,30 +302,40 @@ def wlConfig (s : State) (v : Variant) (a : Addr) : Except Err WlInfo :=
 
 /-! ## Factory -/
 
-/-- `base_factory::update_params` followed by the extension part of `vending_factory::sudo_update_params` -/
+/-- `ensure_eq!(coin.denom, NATIVE_DENOM)` on an optional replacement coin -/
+def nativeOr (o : Option Coin) (cur : Coin) : Except Err Coin :=
+  match o with
+  | none => .ok cur
+  | some c => if c.denom = NATIVE then .ok c else .error .invalid
+
+/-- `params.allowed_sg721_code_ids` after `update_params`: push the additions, `Vec::dedup`, then `retain` per removal -/
+def updateAllowed (allowed : List Nat) (add rm : Option (List Nat)) : List Nat :=
+  (rm.getD []).foldl (fun (acc : List Nat) c => acc.filter (· != c)) (dedupAdj (allowed ++ add.getD []))
+
+/-- `base_factory::update_params` followed by the extension part of `vending_factory::sudo_update_params`
+(nothing is saved when any of the three denom checks fails) -/
 def updateParams (p : Params) (u : ParamsUpdate) : Except Err Params :=
-  let p1 : Params := { p with codeId := u.codeId.getD p.codeId, frozen := u.frozen.getD p.frozen,
-                             creationFee := u.creationFee.getD p.creationFee }
-  match (match u.minMintPrice with
-         | some c => if c.denom = NATIVE then Except.ok { p1 with minMintPrice := c } else .error .invalid
-         | none => .ok p1) with
+  match nativeOr u.minMintPrice p.minMintPrice with
   | .error e => .error e
-  | .ok p2 =>
-    let added := dedupAdj (p2.allowed ++ u.addCodes.getD [])
-    let kept := (u.rmCodes.getD []).foldl (fun acc c => acc.filter (· != c)) added
-    let p3 : Params := { p2 with allowed := kept, mintFeeBps := u.mintFeeBps.getD p2.mintFeeBps,
-                                 maxTradingOffsetSecs := u.maxTradingOffsetSecs.getD p2.maxTradingOffsetSecs,
-                                 maxTokenLimit := u.maxTokenLimit.getD p2.maxTokenLimit,
-                                 maxPerAddressLimit := u.maxPerAddressLimit.getD p2.maxPerAddressLimit }
-    match (match u.airdropMintPrice with
-           | some c => if c.denom = NATIVE then Except.ok { p3 with airdropMintPrice := c } else .error .invalid
-           | none => .ok p3) with
+  | .ok minp =>
+    match nativeOr u.airdropMintPrice p.airdropMintPrice with
     | .error e => .error e
-    | .ok p4 =>
-      let p5 : Params := { p4 with airdropMintFeeBps := u.airdropMintFeeBps.getD p4.airdropMintFeeBps }
-      match u.shuffleFee with
-      | some c => if c.denom = NATIVE then .ok { p5 with shuffleFee := c } else .error .invalid
-      | none => .ok p5
+    | .ok airp =>
+      match nativeOr u.shuffleFee p.shuffleFee with
+      | .error e => .error e
+      | .ok shuf =>
+        .ok { codeId := u.codeId.getD p.codeId
+              allowed := updateAllowed p.allowed u.addCodes u.rmCodes
+              frozen := u.frozen.getD p.frozen
+              creationFee := u.creationFee.getD p.creationFee
+              minMintPrice := minp
+              mintFeeBps := u.mintFeeBps.getD p.mintFeeBps
+              maxTradingOffsetSecs := u.maxTradingOffsetSecs.getD p.maxTradingOffsetSecs
+              maxTokenLimit := u.maxTokenLimit.getD p.maxTokenLimit
+              maxPerAddressLimit := u.maxPerAddressLimit.getD p.maxPerAddressLimit
+              airdropMintPrice := airp
+              airdropMintFeeBps := u.airdropMintFeeBps.getD p.airdropMintFeeBps
+              shuffleFee := shuf }
 
 /-- the fee messages of `execute_create_minter` -/
 def creationFeeMsgs (s : State) (funds : List Coin) : Except Err (List Msg) :=
@@ -439,15 +433,67 @@ def createMinter (s : State) (sender : Addr) (funds : List Coin) (msg : CreateMs
 
 /-! ## Minter: mint -/
 
+/-- how a buyer's mint is booked: on the public counter, or on a whitelist counter (`sid` = tiered stage id 1..3,
+`0` = the plain whitelist counter; `cnt` = the caller's stored count on it) -/
+inductive MintKind where
+  | pub
+  | wl (sid cnt : Nat)
+deriving DecidableEq, Repr
+
+/-- `HasMember` as the minter of variant `v` asks it: (has_member, the membership came from a verified Merkle leaf).
+vending-minter-merkle-wl(-featured): `is_merkle_tree_wl(&wl_config) && proof_hashes.is_some()` selects the proof query. -/
+def hasMember (v : Variant) (i : WlInfo) (f : MintLimits.Fields) (sv : SenderView) : Except Err (Bool × Bool) :=
+  if v.flavor = .merkle ∧ i.merkleCfg = true ∧ f.proof = true then
+    if i.kind.answersHasMemberProof then .ok (sv.leafOk, true) else .error .invalid
+  else
+    if i.kind.answersHasMember then .ok (sv.memberPlain, false) else .error .invalid
+
+/-- `whitelist_mint_count`: (stored count, stage id; 0 = not a tiered whitelist) -/
+def whitelistMintCount (m : Minter) (i : WlInfo) (sender : Addr) : Except Err (Nat × Nat) :=
+  if i.kind.tieredName then
+    if 1 ≤ i.stageId ∧ i.stageId ≤ 3 then .ok (m.stg i.stageId sender, i.stageId) else .error .invalid
+  else .ok (m.wlc sender, 0)
+
+/-- the limit the stored whitelist count is compared against: `Config.per_address_limit` (plain), `Member.mint_count`
+(flex), a proof-authenticated `allocation` (merkle, after fix d3ea89f) -/
+def wlEntitlement (v : Variant) (i : WlInfo) (f : MintLimits.Fields) (sv : SenderView) (leaf : Bool) : Except Err Nat :=
+  match v.flavor with
+  | .plain => .ok i.limit
+  | .flex => if i.kind.answersMember then .ok sv.memberCount else .error .invalid
+  | .merkle =>
+    match f.alloc with
+    | some n => if leaf then .ok n else .ok i.limit
+    | none => .ok i.limit
+
+/-- the part of `is_public_mint` that runs while the attached whitelist is active -/
+def wlMintChecks (m : Minter) (i : WlInfo) (sender : Addr) (f : MintLimits.Fields) (sv : SenderView) : Except Err MintKind :=
+  match hasMember m.v i f sv with
+  | .error e => .error e
+  | .ok (false, _) => .error .unauthorized
+  | .ok (true, leaf) =>
+    match whitelistMintCount m i sender with
+    | .error e => .error e
+    | .ok (cnt, sid) =>
+      match wlEntitlement m.v i f sv leaf with
+      | .error e => .error e
+      | .ok ent =>
+        if ¬ cnt < ent then .error .limit
+        else if sid = 0 then .ok (.wl 0 cnt)
+        else if MintLimits.stageOk m.v.flavor i.kind = false then .error .invalid
+        else
+          match i.stageLimit with
+          | none => .ok (.wl sid cnt)
+          | some L => if m.tot sid < L then .ok (.wl sid cnt) else .error .limit
+
 /-- `is_public_mint` -/
 def isPublicMint (s : State) (m : Minter) (sender : Addr) (f : MintLimits.Fields) (sv : SenderView) :
-    Except Err MintLimits.Gate :=
+    Except Err MintKind :=
   match m.whitelist with
   | none => .ok .pub
   | some a =>
-    match s.wls a with
-    | none => .error .notFound
-    | some i => MintLimits.gate (limitsOf s.params s.wls m) sender f (viewOf i sv)
+    match wlConfig s m.v a with
+    | .error e => .error e
+    | .ok i => if i.active = false then .ok .pub else wlMintChecks m i sender f sv
 
 /-- `mint_price(deps, is_admin)` -/
 def mintPrice (s : State) (m : Minter) (isAdmin : Bool) : Except Err Coin :=
@@ -459,6 +505,22 @@ def mintPrice (s : State) (m : Minter) (isAdmin : Bool) : Except Err Coin :=
       match wlConfig s m.v a with
       | .error e => .error e
       | .ok i => if i.active then .ok i.price else .ok (m.discountPrice.getD m.mintPrice)
+
+/-- `network_fee = mint_price.amount * Decimal::bps(mint_fee_bps | airdrop_mint_fee_bps)` -/
+def networkFee (p : Params) (isAdmin : Bool) (price : Coin) : Nat :=
+  mulFloor price.amount (bps (if isAdmin then p.airdropMintFeeBps else p.mintFeeBps))
+
+/-- who receives `price − fee`: `payment_address.unwrap_or(admin)` -/
+def seller (m : Minter) : Addr := m.paymentAddress.getD m.admin
+
+/-- the bank messages of `_execute_mint`: `distribute_mint_fees(fee, featured, None)` when the fee is non-zero, then the
+seller payout when it is non-zero; `price − fee` underflows (panic) when the fee exceeds the price -/
+def mintMsgs (p : Params) (m : Minter) (isAdmin : Bool) (price : Coin) : Except Err (List Msg) :=
+  let fee := networkFee p isAdmin price
+  if price.amount < fee then .error .other
+  else
+    .ok ((if fee = 0 then [] else Sg1.distributeMintFees ⟨price.denom, fee⟩ m.v.featured none) ++
+         (if price.amount - fee = 0 then [] else [Msg.send (seller m) ⟨price.denom, price.amount - fee⟩]))
 
 /-- which token `_execute_mint` delivers -/
 inductive Pick where
@@ -474,16 +536,16 @@ def takeToken (sup : Supply.Fixed) (pk : Pick) (owner : Addr) : Option Supply.Fi
   | .id id => sup.takeId id owner
 
 /-- the counter written at the end of `_execute_mint` (`MINTER_ADDRS` / `save_whitelist_mint_count`) -/
-def bookCount (m : Minter) (sender : Addr) (g : MintLimits.Gate) : Minter :=
+def bookCount (m : Minter) (sender : Addr) (g : MintKind) : Minter :=
   match g with
   | .pub => { m with pub := MintLimits.upd m.pub sender (m.pub sender + 1) }
-  | .wl sid cnt _ _ _ =>
+  | .wl sid cnt =>
     if sid = 0 then { m with wlc := MintLimits.upd m.wlc sender (cnt + 1) }
     else { m with stg := MintLimits.upd2 m.stg sid sender (cnt + 1), tot := MintLimits.upd m.tot sid (m.tot sid + 1) }
 
 /-- `_execute_mint` (the attached funds have already reached the contract: `b1`) -/
 def executeMint (s : State) (m : Minter) (b1 : MintPay.Bank) (sender : Addr) (funds : List Coin) (isAdmin : Bool)
-    (rcpt : Addr) (pk : Pick) (g : MintLimits.Gate) : Except Err State :=
+    (rcpt : Addr) (pk : Pick) (g : MintKind) : Except Err State :=
   if m.supply.mintable = 0 then .error .soldOut
   else
     match mintPrice s m isAdmin with
@@ -494,13 +556,14 @@ def executeMint (s : State) (m : Minter) (b1 : MintPay.Bank) (sender : Addr) (fu
       | .ok payment =>
         if payment ≠ price.amount then .error .payment
         else
-          match MintPay.splitMsgs (payVariant m.v) (payFactory s.params)
-                  { addr := m.addr, admin := m.admin, paymentAddr := m.paymentAddress, mintPrice := m.mintPrice,
-                    discount := m.discountPrice, whitelist := none, hasCap := true } isAdmin price with
+          match mintMsgs s.params m isAdmin price with
           | .error e => .error e
           | .ok ms =>
             -- the sg721 `Mint` sub-message: only the collection's cw_ownable owner may mint
             if m.tt.owner ≠ some m.addr then .error .unauthorized
+            -- sg721-metadata-onchain is `sg721::ExecuteMsg<Metadata, Empty>`: its `Mint.extension` is a `Metadata`,
+            -- the minter sends `extension: None` — the sub-message does not parse ("Invalid type")
+            else if m.tt.kind = .metadata then .error .invalid
             else
               match takeToken m.supply pk rcpt with
               | none => .error .other
